@@ -2,9 +2,17 @@
    whatever lockscript.lua / delscript.lua say in the tree today. *)
 From Coq Require Import List ZArith String Bool Lia.
 From GZ Require Import Lib.RedisStore Lib.RedisStoreFacts.
-From GZgen Require Lua_lock Lua_del.
+From GZgen Require Lua_lock Lua_del C19Consts.
 Import ListNotations.
 Open Scope Z_scope.
+
+(* redislock.go constants as they are in the tree today: the property text says "the configured
+   seconds plus 500 ms"; ids are 16 random alphanumerics (62^16 values) *)
+Lemma consts_today : C19Consts.gen_tolerance = 500 /\ C19Consts.gen_millisPerSecond = 1000.
+Proof. split; reflexivity. Qed.
+
+Lemma id_length_today : 16 <= C19Consts.gen_randomLen.
+Proof. discriminate. Qed.
 
 (* lockscript.lua: refresh when the caller's id is stored, otherwise SET NX; always PX px *)
 Lemma lock_script_spec st key id px :
